@@ -29,7 +29,7 @@ def mc(ctx, module, cfg, overrides=None, coverage=False, required_actions=(), ti
     if overrides:
         cfgp = framework.make_cfg(cfgp, overrides, ctx.scratch, "%s_%d_%s" % (module, len(os.listdir(ctx.scratch)), cfg))
     t0 = time.time()
-    r = tlc.run(d, module, cfgp, coverage=coverage, timeout=timeout or ctx.pick(400, 1500))
+    r = tlc.run(d, module, cfgp, coverage=coverage, timeout=timeout or ctx.pick(900, 3000))
     ctx._phase("mc", t0)
     ctx.cov["states"] += r.distinct
     ctx.cov["transitions"] += r.generated
@@ -60,7 +60,7 @@ def vacuity(ctx, overrides, required, module="MC_HttpReader", cfg="MCv_HttpReade
     cfgp = framework.make_cfg(os.path.join(d, cfg), overrides, ctx.scratch, "%s_vac_%d_%s" % (module, len(os.listdir(ctx.scratch)), cfg))
     dump = os.path.join(ctx.scratch, "vac_%d" % len(os.listdir(ctx.scratch)))
     t0 = time.time()
-    r = tlc.run(d, module, cfgp, timeout=ctx.pick(400, 900), dump=dump)
+    r = tlc.run(d, module, cfgp, timeout=ctx.pick(900, 3000), dump=dump)
     ctx._phase("vacuity", t0)
     if not r.ok:
         raise Machinery("vacuity run reported %s" % r.violation)
@@ -83,7 +83,7 @@ def vacuity(ctx, overrides, required, module="MC_HttpReader", cfg="MCv_HttpReade
 def gen_cases(ctx, overrides, cfg="Gen_HttpReader.cfg", module="Gen_HttpReader", timeout=None):
     """TLC enumerates (configuration, wire) and computes the byte-by-byte trail of each."""
     t0 = time.time()
-    sts = ctx.gen_states(sdir(ctx), module, cfg, overrides=overrides, timeout=timeout,
+    sts = ctx.gen_states(sdir(ctx), module, cfg, overrides=overrides, timeout=timeout or ctx.pick(900, 3000),
                          variables=("cfg", "wire", "trail", "eofs", "done"))
     ctx._phase("gen", t0)
     cases = [s for s in sts if s["done"]]
@@ -205,12 +205,12 @@ def validate(ctx, traces, classify, label="c2s", timeout=None):
     cfgp = os.path.join(d, "Trace_HttpReader.cfg")
     shards = min(int(os.environ.get("VERIF_WORKERS", "16")), max(1, len(traces) // 40))
     accepted, inv = framework._validate_shards(d, "Trace_HttpReader", cfgp, traces, shards, ctx.scratch,
-                                               timeout or ctx.pick(600, 1500), verbose=False)
+                                               timeout or ctx.pick(900, 3000), verbose=False)
     rejected = [t for t in traces if t["id"] not in accepted]
     verdict = {}
     if rejected:
         _, _, at = framework._validate_shards(d, "Trace_HttpReader", cfgp, rejected, min(shards, len(rejected)),
-                                              ctx.scratch, timeout or ctx.pick(600, 1500), verbose=True)
+                                              ctx.scratch, timeout or ctx.pick(900, 3000), verbose=True)
         ex = D.explain(rejected, ctx.scratch)
         for t in rejected:
             l = at.get(t["id"], 1)
@@ -248,7 +248,7 @@ def classify_server(t, bad, exp):
     e.out, e.closed, e.rej, e.gzflux, e.gzdec = exp["out"], exp["closed"], exp["rej"], exp["gzflux"], exp["gzdec"]
     e.gzover, e.maxb = exp.get("gzover", False), exp.get("maxb", 0)
     why = D.compare_server(e, bad["obs"])
-    return {"side": "server", "app": "delegate", "why": why or "tlc-only", "rej": exp["rej"],
+    return {"side": "server", "app": t.get("app", "delegate"), "why": why or "tlc-only", "rej": exp["rej"],
             "shape": shape(D.exp_json(e), bad["obs"]), "tags": input_tags(t["wire"]) + cfg_tags(t["cfg"])}
 
 
